@@ -15,7 +15,7 @@ from ..core.davsys import Config, DavSys, nl, sha
 from ..core.report import Reporter
 
 KINDS = ["a", "b", "ghost", "pct-a", "dslash-a", "abs-a", "abs-other-host-a", "ab-member", "collection", "outside-prefix-a", "confusable-prefix-a", "glued-prefix-a", "empty", "pct-slash-a",
-         "missing-coll-a", "missing-coll-b", "item-as-parent-a", "item-as-parent-b"]
+         "missing-coll-a", "missing-coll-b", "item-as-parent-a", "item-as-parent-b", "control-dir-a", "trailing-space-a", "trailing-newline-a", "leading-space-a"]
 # the kinds whose parent is not a collection, together with the real members: all triples of these are always enumerated
 FOCUS = ["a", "b", "missing-coll-a", "missing-coll-b", "item-as-parent-a", "item-as-parent-b"]
 
@@ -42,6 +42,12 @@ def hrefs_for(s, cfg):
         "missing-coll-b": p + "/user/calendars/nope/b.ics",
         "item-as-parent-a": base + "a.ics/a.ics",
         "item-as-parent-b": base + "a.ics/b.ics",
+        # the repository's control directory taken as a parent collection
+        "control-dir-a": base + ".git/a.ics",
+        # encoded white space at an edge of the path: another (never existing) name, not a.ics
+        "trailing-space-a": base + "a.ics%20",
+        "trailing-newline-a": base + "a.ics%0A",
+        "leading-space-a": "%20" + base + "a.ics",
     }
     return {k: v for k, v in out.items() if v is not None}
 
